@@ -189,7 +189,13 @@ impl Lzma2Decoder {
         let mut taken = input.take(packed_size);
         let mut rangecoder = rangecoder::RangeDecoder::new(&mut taken)
             .map_err(|e| error::Error::LzmaError(format!("LZMA input too short: {}", e)))?;
-        self.lzma_state.process(accum, &mut rangecoder)
+        self.lzma_state.process(accum, &mut rangecoder)?;
+        if !rangecoder.is_finished_ok()? {
+            return Err(error::Error::LzmaError(
+                "LZMA2 chunk does not end at its declared compressed size".to_string(),
+            ));
+        }
+        Ok(())
     }
 
     fn parse_uncompressed<R, W>(
